@@ -3,7 +3,7 @@
 usage: try_patch_all.py <patch.diff> [--expect-silent]
 Prints one line per property whose check does not exit 0."""
 import subprocess, sys, os, json, concurrent.futures
-patch = sys.argv[1]
+patch = os.path.abspath(sys.argv[1])
 def sh(cmd, **kw):
     return subprocess.run(cmd, shell=True, stdout=subprocess.PIPE, stderr=subprocess.STDOUT, **kw)
 if sh('git -C /repo diff --quiet').returncode != 0:
